@@ -353,7 +353,12 @@ class RunM(RunBase):
     def _ctl(self):
         for k, call in enumerate(self.case['calls']):
             begin = self.tick()
-            getattr(self.mon, call)()
+            if call in ('f0', 'f1'):
+                # the monitor's frequency re-configured at run time (what the config entry
+                # engine.<plugin>.frequency does: a plain attribute assignment by the controlling thread)
+                self.mon.frequency = int(call[1])
+            else:
+                getattr(self.mon, call)()
             self.rets.append((k, call, begin, self.tick()))
 
     def after_step(self, tid):
@@ -539,8 +544,15 @@ def oracle_M(case, run):
     active = sorted(w for w in run.wstart
                     if sum(1 for (t, who) in run.journal if who == w and t > tdone) >= 2
                     and not run.s.recs[w].done)      # (a worker whose thread has ended is not active)
-    last = run.rets[-1][1] if run.rets else None
-    want = 1 if (last in ('start', 'graceful') and case['freq']) else 0
+    # (f0 / f1 = the frequency re-configured at run time: not a call of the statement; what counts is the frequency
+    # in effect when the last start()/graceful() ran)
+    freq, last, freq_at_last = case['freq'], None, case['freq']
+    for (_k, call, _b, _t) in run.rets:
+        if call in ('f0', 'f1'):
+            freq = int(call[1])
+        else:
+            last, freq_at_last = call, freq
+    want = 1 if (last in ('start', 'graceful') and freq_at_last) else 0
     # a callback that raises kills its worker (run() re-raises): the monitor's current worker is then dead,
     # start() does not replace it (less demanding reading), graceful() does
     cur = run.s.find_thread(run.mon.__dict__.get('thread')) if run.mon.__dict__.get('thread') is not None else None
@@ -1047,6 +1059,8 @@ def comparable(case):
         return False            # bytecode-granular runs: oracle only
     if case['k'] == 'M' and case.get('ar') == 2:
         return False            # Autoreloader restarting the bus from inside its callback: oracle only
+    if case['k'] == 'M' and any(c in ('f0', 'f1') for c in case['calls']):
+        return False            # frequency re-configured at run time (the model's frequency is a constant): oracle only
     if case['k'] == 'M' and case.get('boom'):
         return MODEL_HAS.get('boom', False)
     if case['k'] == 'B' and case.get('intr'):
@@ -1236,6 +1250,12 @@ def gen_M_systematic(calls, freq, daemon, points_a, points_b, **extra):
             yield dict({'k': 'M', 'freq': freq, 'daemon': daemon, 'calls': calls, 'sched': sched}, **extra)
 
 
+# the frequency re-configured while a worker exists (engine.<plugin>.frequency = 0 / = n at run time)
+M_FREQ_SEQS = [['start', 'f0', 'stop'], ['start', 'f0', 'stop', 'f1', 'start'], ['start', 'f0', 'graceful'],
+               ['start', 'f0', 'stop', 'stop'], ['start', 'f0', 'f1', 'stop'], ['f1', 'start', 'stop'],
+               ['start', 'f0', 'graceful', 'f1', 'graceful'], ['start', 'stop', 'f0', 'start', 'f1', 'start']]
+
+
 def gen_M_two(calls, freq, daemon, rng, n):
     for _ in range(n):
         a1, b1, a2, b2 = rng.randint(0, 26), rng.randint(0, 10), rng.randint(1, 16), rng.randint(0, 10)
@@ -1386,6 +1406,11 @@ def all_cases(ctx):
         for boom in ([1], [2], [1, 2]):
             cases += list(gen_M_systematic(calls, 1, 1 if boom != [2] else 0, range(6, 26, 3 if quick else 1),
                                            (4, 5, 9) if quick else range(0, 12), boom=boom))
+    # the frequency re-configured at run time while a worker exists (oracle only: the model's frequency is fixed)
+    for calls in M_FREQ_SEQS:
+        for daemon in (1, 0):
+            cases += list(gen_M_systematic(calls, 1, daemon, range(0, 30, 3 if quick else 1), (0, 2, 5)))
+    cases += list(gen_M_systematic(['f1', 'start', 'f0', 'stop'], 0, 1, range(0, 30, 3 if quick else 1), (0, 5)))
     # a SECOND controller thread whose stop()/graceful() overlaps the calls of the first (outside the quantifier:
     # compared with the two-controller model, Lean witnesses C20_overlapping_stop_* replayed)
     for calls, calls2 in ((['start', 'graceful', 'start'], ['stop']), (['start', 'graceful'], ['stop']),
